@@ -110,6 +110,34 @@ def main():
             st = we.blame_step(p, rr["msg"])
             c.violation("C14:python-exec:%s" % (we.type_class(st["t"]) if st else "?"), "the Python backend does not lay out the value as the plan prescribes: " + rr["msg"][:300],
                         {"run": r, "model": open(os.path.join(p.root, "model", "model.yml")).read()[:3000], "stderr": rr.get("stderr")})
+    # ---- the C++ backend decides part of its plan in generated code that cannot be read off a construction expression: whether a record
+    #      (and containers of it) is copied as raw memory or field by field.  Records and containers of records are therefore executed in C++.
+    rec_types = [(t, cs) for t, cs in types if "rec(" in we.type_class(t) and not we.cpp_unbuildable(t)]
+    rec_types = rec_types[:(120 if thorough else 40)]
+    cpkgs = we.make_packages(rec_types, 20, os.path.join(sc, "cpp"), ndjson=False) if rec_types else []
+    for i, q in enumerate(cpkgs):
+        q.style = {"generics": "none", "shorthand": i % 2 == 1, "optional": "question"}
+    cnotes = []
+    we.prepare(cpkgs, yardl, home, langs=("cpp",), notes=cnotes)
+    for n in cnotes:
+        c.note(n)
+
+    def cppwork(q):
+        out = []
+        if not q.ok:
+            return out
+        for r in range(1, q.n_runs(4) + 1):
+            vals = q.run_values(r, False)
+            out.append((q, r, we.leg(q, "cpp", "binary", "binary", vals, "cplan-r%d" % r, block=[None, 1, 2][r % 3], bufsize=[1, 2][r % 2])))
+        return out
+    for q, r, rr in [x for lst in pmap(cppwork, cpkgs) for x in lst]:
+        c.cov["traces_validated_against_impl"] += 1
+        c.count(("cpp-exec", q.idx, r), nontrivial=True)
+        if not rr["ok"]:
+            st = we.blame_step(q, rr["msg"])
+            c.violation("C14:cpp-exec:%s" % (we.type_class(st["t"]) if st else "?"), "the C++ backend does not lay out the value as the plan prescribes: " + rr["msg"][:300],
+                        {"run": r, "model": open(os.path.join(q.root, "model", "model.yml")).read()[:3000], "stderr": rr.get("stderr")})
+    c.cov["cpp_executed_record_types"] = len(rec_types)
     c.cov["extraction_failures"] = extract_failures
     if extract_failures > max(5, c.cov["traces_validated_against_impl"] // 10):
         raise Inconclusive("the extractor does not understand the generated code any more (%d failures)" % extract_failures)
